@@ -139,7 +139,8 @@ where
     let mk_leaves = || -> Vec<LeafSpec> { lens.iter().map(|l| LeafSpec { len: *l, probe: Probe::new() }).collect() };
     let r = vmon::catch(std::panic::AssertUnwindSafe(|| -> Result<(), (String, String)> {
         let leaves = mk_leaves();
-        let point = exhaustion_point(node, &leaves);
+        // a delay of 2^32 frames or more is never drained: treat such trees as endless here
+        let point = exhaustion_point(node, &leaves).filter(|p| *p <= 4096);
         let mut logs = Vec::new();
         // 1. step through next(), checking is_exhausted before and after, and the frames
         let mut sig: Dyn<F> = build::<F>(node, &leaves, &mut logs);
@@ -419,7 +420,7 @@ fn main() {
     // ---- every single adaptor and adaptor pair over finite leaves, all length pairs <= 6
     let mut jobs: Vec<(Node, Vec<Option<u64>>)> = Vec::new();
     for k in UNARY_KINDS {
-        for v in 0..5 {
+        for v in 0..10 {
             for l in 0..=6u64 {
                 jobs.push((unary(k, Node::Leaf(0), v), vec![Some(l)]));
             }
